@@ -10,100 +10,6 @@ open Patch C02L
 /-- the entry jump written by `Guard.Apply` is 13 bytes for every destination (emitter regenerated from the Go source) -/
 theorem jump_length (to : BitVec 64) : (jumpTo to).length = 13 := C02L.jump_length to
 
-theorem setOrigin_spec {env : Env} {s : St} (hi : Inv env s) (id : Nat) (o : Option Nat) :
-    Inv env (setOrigin s id o) ∧ (setOrigin s id o).text = s.text ∧ (setOrigin s id o).cache = s.cache ∧
-    (setOrigin s id o).keys = s.keys ∧ (setOrigin s id o).guards = s.guards ∧
-    ∀ j, ((setOrigin s id o).mockers j).target = (s.mockers j).target ∧ ((setOrigin s id o).mockers j).guard = (s.mockers j).guard ∧
-         ((setOrigin s id o).mockers j).canceled = (s.mockers j).canceled ∧ ((setOrigin s id o).mockers j).hasWhen = (s.mockers j).hasWhen := by
-  cases o with
-  | none => exact ⟨hi, rfl, rfl, rfl, rfl, fun _ => ⟨rfl, rfl, rfl, rfl⟩⟩
-  | some o =>
-    have hm : ∀ j, ((setOrigin s id (some o)).mockers j).target = (s.mockers j).target ∧
-        ((setOrigin s id (some o)).mockers j).guard = (s.mockers j).guard ∧
-        ((setOrigin s id (some o)).mockers j).canceled = (s.mockers j).canceled ∧
-        ((setOrigin s id (some o)).mockers j).hasWhen = (s.mockers j).hasWhen := by
-      intro j; by_cases hj : j = id <;> simp [setOrigin, upd, hj]
-    refine ⟨⟨hi.saved, hi.txt, hi.reg, ?_, ?_⟩, rfl, rfl, rfl, rfl, hm⟩
-    · intro j g h; rw [(hm j).2.1] at h; rw [(hm j).1]; exact hi.mg j g h
-    · intro b key j h; rw [(hm j).1]; exact hi.ck b key j h
-
-theorem whens_spec {env : Env} {s : St} (hi : Inv env s) (id : Nat) :
-    Inv env (whens s id) ∧ (whens s id).text = s.text ∧ (whens s id).cache = s.cache ∧ (whens s id).keys = s.keys ∧
-    ∀ j, ((whens s id).mockers j).target = (s.mockers j).target ∧ ((whens s id).mockers j).canceled = (s.mockers j).canceled := by
-  have hm : ∀ j, ((whens s id).mockers j).target = (s.mockers j).target ∧ ((whens s id).mockers j).guard = (s.mockers j).guard ∧
-      ((whens s id).mockers j).canceled = (s.mockers j).canceled := by
-    intro j; by_cases hj : j = id <;> simp [whens, upd, hj]
-  refine ⟨⟨hi.saved, hi.txt, hi.reg, ?_, ?_⟩, rfl, rfl, rfl, fun j => ⟨(hm j).1, (hm j).2.2⟩⟩
-  · intro j g h; rw [(hm j).2.1] at h; rw [(hm j).1]; exact hi.mg j g h
-  · intro b key j h; rw [(hm j).1]; exact hi.ck b key j h
-
-/-- everything `Reset` does, for an arbitrary list of keys in an arbitrary order (Go's map iteration order is unspecified) -/
-theorem cancelKeys_spec {env : Env} (he : EnvOk env) (b : Nat) (ks : List Nat) : ∀ {s : St}, Inv env s →
-    Inv env (cancelKeys s b ks) ∧
-    (∀ x, (cancelKeys s b ks).text x = s.text x ∨ (cancelKeys s b ks).text x = env.pristine x) ∧
-    (cancelKeys s b ks).cache = s.cache ∧ (cancelKeys s b ks).keys = s.keys ∧ (cancelKeys s b ks).guards = s.guards ∧
-    (∀ j, ((cancelKeys s b ks).mockers j).target = (s.mockers j).target ∧ ((cancelKeys s b ks).mockers j).guard = (s.mockers j).guard ∧
-          ((s.mockers j).canceled = true → ((cancelKeys s b ks).mockers j).canceled = true)) ∧
-    (∀ x, (∀ k, k ∈ ks → k % 1000 ≠ x) → (cancelKeys s b ks).text x = s.text x) ∧
-    (∀ k, k ∈ ks → ∀ id g, s.cache b k = some id → (s.mockers id).guard = some g → (s.guards g).applied = true →
-        (cancelKeys s b ks).text (k % 1000) = env.pristine (k % 1000)) ∧
-    (∀ k, k ∈ ks → ∀ id, s.cache b k = some id → ((cancelKeys s b ks).mockers id).canceled = true) := by
-  induction ks with
-  | nil =>
-    intro s hi
-    refine ⟨hi, fun _ => Or.inl rfl, rfl, rfl, rfl, fun _ => ⟨rfl, rfl, id⟩, fun _ _ => rfl, ?_, ?_⟩
-    · intro k hk; cases hk
-    · intro k hk; cases hk
-  | cons k ks ih =>
-    intro s hi
-    -- the head
-    have head : ∃ s1 : St, s1 = (match s.cache b k with | some id => cancelMocker s id | none => s) ∧ Inv env s1 ∧
-        (∀ x, s1.text x = s.text x ∨ s1.text x = env.pristine x) ∧ s1.cache = s.cache ∧ s1.keys = s.keys ∧ s1.guards = s.guards ∧
-        (∀ j, (s1.mockers j).target = (s.mockers j).target ∧ (s1.mockers j).guard = (s.mockers j).guard ∧
-              ((s.mockers j).canceled = true → (s1.mockers j).canceled = true)) ∧
-        (∀ x, k % 1000 ≠ x → s1.text x = s.text x) ∧
-        (∀ id g, s.cache b k = some id → (s.mockers id).guard = some g → (s.guards g).applied = true →
-            s1.text (k % 1000) = env.pristine (k % 1000)) ∧
-        (∀ id, s.cache b k = some id → (s1.mockers id).canceled = true) := by
-      cases hc : s.cache b k with
-      | none =>
-        refine ⟨s, rfl, hi, fun _ => Or.inl rfl, rfl, rfl, rfl, fun _ => ⟨rfl, rfl, id⟩, fun _ _ => rfl, ?_, ?_⟩
-        · intro id g h; cases h
-        · intro id h; cases h
-      | some id =>
-        obtain ⟨c1, c2, c3, c4, c5, c6, c7, c8, c9⟩ := cancelMocker_spec he hi id
-        have ht := (hi.ck b k id hc).1
-        refine ⟨cancelMocker s id, rfl, c1, c3, c5, c6, c7, c9, ?_, ?_, ?_⟩
-        · intro x hx; exact c2 x (by rw [ht]; exact fun h => hx h.symm)
-        · intro id' g h1 h2 h3; cases h1; rw [← ht]; exact c4 g h2 h3
-        · intro id' h; cases h; exact c8
-    obtain ⟨s1, hs1, i1, t1, ca1, ke1, gu1, mo1, fr1, re1, cn1⟩ := head
-    show _ ∧ _
-    have hdef : cancelKeys s b (k :: ks) = cancelKeys s1 b ks := by rw [hs1]; rfl
-    rw [hdef]
-    obtain ⟨j1, j2, j3, j4, j5, j6, j7, j8, j9⟩ := ih i1
-    refine ⟨j1, ?_, by rw [j3, ca1], by rw [j4, ke1], by rw [j5, gu1], ?_, ?_, ?_, ?_⟩
-    · intro x
-      rcases j2 x with h | h
-      · rw [h]; exact t1 x
-      · right; exact h
-    · intro j
-      refine ⟨by rw [(j6 j).1, (mo1 j).1], by rw [(j6 j).2.1, (mo1 j).2.1], fun h => (j6 j).2.2 ((mo1 j).2.2 h)⟩
-    · intro x hx
-      rw [j7 x (fun k' hk' => hx k' (List.mem_cons_of_mem _ hk'))]
-      exact fr1 x (hx k (List.mem_cons_self))
-    · intro k' hk' id g h1 h2 h3
-      rcases List.mem_cons.mp hk' with h | h
-      · subst h
-        rcases j2 (k' % 1000) with h' | h'
-        · rw [h']; exact re1 id g h1 h2 h3
-        · exact h'
-      · exact j8 k' h id g (by rw [ca1]; exact h1) (by rw [(mo1 id).2.1]; exact h2) (by rw [gu1]; exact h3)
-    · intro k' hk' id h1
-      rcases List.mem_cons.mp hk' with h | h
-      · subst h; exact (j6 id).2.2 (cn1 id h1)
-      · exact j9 k' h id (by rw [ca1]; exact h1)
-
 /-- **Invariant, step.** Every public-API call preserves the invariant. -/
 theorem inv_step {env : Env} (he : EnvOk env) {s : St} (hi : Inv env s) (op : Op) : Inv env (step env s op).1 := by
   cases op with
